@@ -3,6 +3,8 @@
 /verif/seeded/<id>/, and run the registered checks against it (applied to /repo, then undone).
 usage: seeded.py confirm <prop> <worktree> [name]     seeded.py run <prop>/<name> [check ids...]"""
 import json, os, subprocess, sys, shutil, time
+V = os.environ.get('VERIF_ROOT') or os.path.dirname(os.path.dirname(os.path.abspath(__file__)))
+R = os.environ.get('VERIF_REPO', '/repo')
 ENV = dict(os.environ, GOFLAGS='-mod=mod', GOPROXY='off', GOSUMDB='off', GOTOOLCHAIN='local')
 def sh(cmd, cwd=None, timeout=3000):
     p = subprocess.run(cmd, shell=True, cwd=cwd, env=ENV, capture_output=True, text=True, timeout=timeout)
@@ -10,7 +12,7 @@ def sh(cmd, cwd=None, timeout=3000):
 def confirm(prop, wt, name):
     m = os.path.join(wt, '.mutant')
     meta = json.load(open(os.path.join(m, 'meta.json')))
-    dst = f'/verif/seeded/{prop}/{name}'
+    dst = f'{V}/seeded/{prop}/{name}'
     os.makedirs(dst, exist_ok=True)
     # regenerate the patch from the worktree ourselves
     rc, diff = sh("git diff -- . ':(exclude).mutant' ':(exclude)**/verif_demo_test.go' ':(exclude)verif_demo_test.go'", cwd=wt)
@@ -44,28 +46,28 @@ def confirm(prop, wt, name):
         print(res['demo_mutated_tail']); print(res['demo_original_tail'])
 def run(spec, ids):
     prop = spec.split('/')[0]
-    dst = f'/verif/seeded/{spec}'
+    dst = f'{V}/seeded/{spec}'
     ids = ids or [prop]
-    rc, out = sh('git status --porcelain', cwd='/repo'); assert out.strip() == '', 'repo dirty: ' + out
-    rc, out = sh(f'git apply {dst}/patch.diff', cwd='/repo'); assert rc == 0, out
+    rc, out = sh('git status --porcelain', cwd=R); assert out.strip() == '', 'repo dirty: ' + out
+    rc, out = sh(f'git apply {dst}/patch.diff', cwd=R); assert rc == 0, out
     results = {}
     # evidence files describe the unchanged tree: keep them out of reach of runs on a changed tree
-    saved = {i: open(f'/verif/evidence/{i}.json').read() for i in ids if os.path.exists(f'/verif/evidence/{i}.json')}
+    saved = {i: open(f'{V}/evidence/{i}.json').read() for i in ids if os.path.exists(f'{V}/evidence/{i}.json')}
     try:
         for i in ids:
             for tier in ['quick']:
                 t = time.time()
-                rc, out = sh(f'/verif/check {i} --tier {tier}', cwd='/verif')
+                rc, out = sh(f'{V}/check {i} --tier {tier}', cwd=V)
                 lines = sorted([l for l in out.splitlines() if l.startswith(('VIOLATION', 'KNOWN-FINDING', 'OK ', 'INTERNAL'))], key=lambda l: 0 if l.startswith('VIOLATION') else 1)
                 results[f'{i}:{tier}'] = dict(exit=rc, lines=lines[:6], wall=round(time.time() - t, 1))
                 print(i, tier, rc, lines[:4])
     finally:
         for i, txt in saved.items():
-            open(f'/verif/evidence/{i}.json', 'w').write(txt)
-        sh('git checkout -- .', cwd='/repo')
-        rc, out = sh('git status --porcelain', cwd='/repo'); assert out.strip() == '', out
-        sh('/verif/tools/build_harness.sh')   # the binary must not outlive the change it was built from
-        sh('/verif/build/bin/extract -repo /repo -out /verif/lean/OrasModel/Gen -harness /verif/go/harness')   # nor the generated tables
+            open(f'{V}/evidence/{i}.json', 'w').write(txt)
+        sh('git checkout -- .', cwd=R)
+        rc, out = sh('git status --porcelain', cwd=R); assert out.strip() == '', out
+        sh(f'{V}/tools/build_harness.sh')   # the binary must not outlive the change it was built from
+        sh(f'{V}/build/bin/extract -repo {R} -out {V}/lean/OrasModel/Gen -harness {V}/go/harness')   # nor the generated tables
     meta = json.load(open(f'{dst}/meta.json'))
     meta.setdefault('check_results', {}).update(results)
     meta['caught_by'] = sorted({k.split(':')[0] for k, v in meta['check_results'].items() if v['exit'] == 1 and any(l.startswith('VIOLATION') for l in v['lines'])})
@@ -74,7 +76,7 @@ def matrix():
     """Run every stored seeded change against its own property's quick check; write seeded/MATRIX.md."""
     import glob
     rows = []
-    for d in sorted(glob.glob('/verif/seeded/*/*/meta.json')):
+    for d in sorted(glob.glob(f'{V}/seeded/*/*/meta.json')):
         spec = '/'.join(d.split('/')[-3:-1])
         run(spec, [])
         m = json.load(open(d))
@@ -83,11 +85,11 @@ def matrix():
         kinds = 'concrete input' if any(l.startswith('VIOLATION') and 'no-failing-input-found' not in l for l in r.get('lines', [])) else \
             ('no-failing-input-found' if any(l.startswith('VIOLATION') for l in r.get('lines', [])) else ('caught by a sibling check only' if m.get('caught_by') else 'MISSED'))
         rows.append((spec, ', '.join(m.get('files', [])), ', '.join(m.get('caught_by', [])) or '-', kinds, r.get('wall')))
-    with open('/verif/seeded/MATRIX.md', 'w') as f:
+    with open(f'{V}/seeded/MATRIX.md', 'w') as f:
         f.write('| seeded change | files | caught by (quick) | how | wall s |\n|---|---|---|---|---|\n')
         for r in rows:
             f.write('| ' + ' | '.join(str(x) for x in r) + ' |\n')
-    print(open('/verif/seeded/MATRIX.md').read())
+    print(open(f'{V}/seeded/MATRIX.md').read())
 if sys.argv[1] == 'matrix':
     matrix()
 elif sys.argv[1] == 'confirm':
